@@ -11,6 +11,7 @@ import DdnnfVerif.Model.Sample
 import DdnnfVerif.Model.Persist
 import DdnnfVerif.Model.Atomic
 import DdnnfVerif.Model.D4Load
+import DdnnfVerif.Model.StreamMsg
 import DdnnfVerif.Proofs.PDLeaf
 import DdnnfVerif.Proofs.CnfExport
 namespace Ddnnf
